@@ -258,7 +258,8 @@ Lemma step_bf : forall bad v s o, cond bad v ->
 Proof.
   intros bad v s o Hc Hvv. destruct o; cbn [step].
   - apply recv_bf; assumption.
-  - apply recv_bf; assumption.
+  - eapply andthen_bf; eauto using recv_bf. intros s1. unfold reader_error.
+    destruct (closed s1); [eapply ok_bf | eapply sched_bf]; eauto.
   - eapply ok_bf; eauto.
   - destruct (connected s); [eapply sched_bf | eapply ok_bf]; eauto.
   - destruct (connected s || closed s)%bool; eapply ok_bf; eauto.
@@ -290,7 +291,10 @@ Qed.
 
 Lemma total_recv : forall v wf s m, v_valid v = true -> v_close v = true -> out_of (recv v wf s m) <> Panic.
 Proof.
-  intros v wf s m Hv Hc. destruct wf; [apply (total_step v s (ORecvFail m)) | apply (total_step v s (ORecv m))]; assumption.
+  intros v wf s m Hv Hc Hp.
+  assert (H : bad_free is_panic (recv v wf s m)).
+  { apply recv_bf; [repeat split; cbn; intros; try discriminate; assumption | intros; assumption]. }
+  unfold bad_free in H. rewrite Hp in H. discriminate.
 Qed.
 
 Lemma progress_step : forall v s o, v_lock v = true -> out_of (step v s o) <> Stuck.
@@ -479,6 +483,8 @@ Qed.
 Lemma step_inv : forall v s o, dl_ok s -> inv_res (step v s o).
 Proof.
   intros v s o H. destruct o; cbn [step]; try (apply recv_inv; exact H).
+  - apply andthen_inv; [apply recv_inv; exact H|]. intros s1 H1. unfold reader_error.
+    destruct (closed s1); [apply ok_inv; [exact H1 | constructor] | apply sched_inv; exact H1].
   - apply ok_inv; [exact H | constructor].
   - destruct (connected s); [apply sched_inv; exact H | apply ok_inv; [exact H | constructor]].
   - destruct (connected s || closed s)%bool; apply ok_inv; try exact H; constructor.
@@ -836,9 +842,13 @@ Proof.
   destruct fed; [pose proof (send_hello_len v wf s); lia | pose proof (close_with_error_len v wf false s CFedUnsupported); lia].
 Qed.
 
-Lemma step_len : forall v s o, (nacts (step v s o) <= N.to_nat (pending s) + 6)%nat.
+Lemma step_len : forall v s o, (nacts (step v s o) <= N.to_nat (pending s) + 9)%nat.
 Proof.
-  intros. destruct o; cbn [step]; try apply recv_len; try (cbn; lia).
+  intros. destruct o; cbn [step]; try (pose proof (recv_len v false s m); lia); try (cbn; lia).
+  - pose proof (recv_len v true s m). pose proof (andthen_len (recv v true s m) reader_error) as Ha.
+    assert (nacts (reader_error (st_of (recv v true s m))) <= 3)%nat.
+    { unfold reader_error. destruct (closed _); [cbn; lia | apply sched_len]. }
+    lia.
   - destruct (connected s); [pose proof (sched_len s) as [H _]; lia | cbn; lia].
   - destruct (connected s || closed s)%bool; cbn; lia.
   - destruct (connected s || closed s)%bool; [cbn; lia | pose proof (sched_len s) as [H _]; lia].
